@@ -58,12 +58,12 @@ prop('C03',
 
 prop('C04',
      [T.rule_canonical_sort_registered, M.rule_a9_set, M.rule_a9_setof, A.rule_c04_default, A.rule_c04_clone,
-      A.rule_a6_record_arms, Z.rule_real_normalisation, Z.rule_readers_pure, R.rule_position_order, R.rule_default_siblings, R.rule_cer_real_base, R3.rule_sized_length, Z.rule_bits_prepend, R4.rule_real_initialisers_normalised],
+      A.rule_a6_record_arms, Z.rule_real_normalisation, Z.rule_readers_pure, R.rule_position_order, R.rule_default_siblings, R.rule_cer_real_base, R3.rule_sized_length, Z.rule_bits_prepend, R4.rule_real_initialisers_normalised, R4.rule_copy_is_value],
      'History independence rests on: the canonical encoders registered for SET/SET OF do sort (by a key that does not '
      'depend on insertion order); DEFAULT components equal to their default and absent OPTIONALs are skipped before '
      'encoding in all four record loops; deep copies visit every stored component.  History independence itself '
      '(lazy placeholders never changing the bytes) is not decided.',
-     {'C04.default': 4, 'C04.clone': 4, 'A9.reg': 4, 'C04.optional': 4, 'A10.order': 3, 'A6.defsib': 4, 'A1.cerreal': 2, 'W.sized': 6, 'W.real10in': 3})
+     {'C04.default': 4, 'C04.clone': 4, 'A9.reg': 4, 'C04.optional': 4, 'A10.order': 3, 'A6.defsib': 4, 'A1.cerreal': 2, 'W.sized': 6, 'W.real10in': 3, 'C04.copyvalue': 2})
 
 prop('C05',
      [G.rule_slots, G.rule_prod, G.rule_retry, G.rule_cons, G.rule_last, G.rule_drop, G.rule_reads_confined,
@@ -99,11 +99,11 @@ prop('C08',
       'W.content': 15, 'A2.probe': 1, 'W.real10': 3, 'A3.segjoin': 5, 'C10.strictdec': 5})
 
 prop('C09',
-     [T.rule_ber_lax, T.rule_fragment_tag_ber, A.rule_a7_nested, A.rule_a6_spec, W.rule_decode_header, Z.rule_bits_prepend, Z.rule_constructed_yields, A.rule_a6_optdef, Z.rule_real_format, R3.rule_sized_length, R3.rule_method_identity, R3.rule_table_alias, R3.rule_eoo_identity, R4.rule_eoo_probe_boundary, R4.rule_segment_kinds, R4.rule_form_by_base_tag],
+     [T.rule_ber_lax, T.rule_fragment_tag_ber, A.rule_a7_nested, A.rule_a6_spec, W.rule_decode_header, Z.rule_bits_prepend, Z.rule_constructed_yields, A.rule_a6_optdef, Z.rule_real_format, R3.rule_sized_length, R3.rule_method_identity, R3.rule_table_alias, R3.rule_eoo_identity, R4.rule_eoo_probe_boundary, R4.rule_segment_kinds, R4.rule_form_by_base_tag, R4.rule_zero_segments],
      'BER decoder stays lax where X.690 allows choice: any non-zero TRUE, constructed strings with OCTET STRING '
      'segments (nested too), indefinite lengths, long-form lengths with leading zeros, SET members looked up by tag in '
      'any position in both length forms (sibling agreement of the record loops).  Length arithmetic is not decided.',
-     {'A1.lax': 35, 'A7.tag': 30, 'A7.nested': 4, 'A6.spec': 3, 'W.dec': 10, 'W.sized': 6, 'A5.methid': 2, 'A1.alias': 12, 'A8.eooid': 8, 'A8.probe': 9, 'A3.segjoin': 5, 'A6.form': 9})
+     {'A1.lax': 35, 'A7.tag': 30, 'A7.nested': 4, 'A6.spec': 3, 'W.dec': 10, 'W.sized': 6, 'A5.methid': 2, 'A1.alias': 12, 'A8.eooid': 8, 'A8.probe': 9, 'A3.segjoin': 5, 'A6.form': 9, 'A6.zeroseg': 1})
 
 prop('C10', [A.rule_c10, A.rule_a6_spec, X.rule_nonevalue, A.rule_c14, Z.rule_choice_result, A.rule_a6_optdef, Z.rule_constraint_denotation, Z.rule_bits_padding, R3.rule_container_cleared, R4.rule_strict_text_codecs, R4.rule_consistency_consults],
      'Spec-guided exits of the constructed decoders: required components present; constraints (isInconsistent) checked '
@@ -132,11 +132,11 @@ prop('C13', [T.rule_x680, A.rule_c13, W.rule_encode_header, W.rule_decode_header
      'identifier-octet guards match X.690 8.1.2.  Multi-octet identifier arithmetic is decided only up to its guards.',
      {'C13.expl': 2, 'C13.impl': 1, 'C13.cmp': 9, 'C13.sub': 2, 'C13.enc': 1, 'C13.dec': 1, 'C13.model': 3, 'A1.x680': 35, 'A6.form': 9})
 
-prop('C14', [A.rule_c14, Z.rule_constraint_denotation, R.rule_sizespec_fold, A.rule_c04_clone, R4.rule_consistency_consults],
+prop('C14', [A.rule_c14, Z.rule_constraint_denotation, R.rule_sizespec_fold, A.rule_c04_clone, R4.rule_consistency_consults, R4.rule_adding_narrows],
      'Single constraint funnel for scalar payloads (who-may-write + must-pass-through), derivation only extends '
      'constraints and records ancestry, encoders refuse inconsistent constructed values.  The set-theoretic denotation '
      'of the _testValue comparisons is not decided.',
-     {'C14.funnel': 2, 'C14.init': 4, 'C14.extend': 3, 'C14.enc': 5, 'C14.vmap': 4, 'C14.fold': 2, 'C14.consult': 4})
+     {'C14.funnel': 2, 'C14.init': 4, 'C14.extend': 3, 'C14.enc': 5, 'C14.vmap': 4, 'C14.fold': 2, 'C14.consult': 4, 'C14.narrow': 4})
 
 prop('C15', [T.rule_lookup_shape, T.rule_chain, T.rule_strict, W.rule_decode_header, W.rule_content_guards, Z.rule_constructed_yields, R3.rule_table_alias, Z.rule_cache_key],
      'Strictness switches resolved per codec x lookup path by constant evaluation of the codec tables: strict BOOLEAN '
@@ -149,11 +149,11 @@ prop('C16', [T.rule_total_bytag, X.rule_nonevalue, T.rule_pair_ber, Z.rule_schem
      'None/placeholder/raw octets reach a result yield.  Leaf equality and re-encode identity are not decided.',
      {'A1.total': 80, 'A13.value': 20, 'A1.proto': 60, 'A1.enctype': 60, 'A8.eooid': 8})
 
-prop('C17', [T.rule_total_native, A.rule_c17_contra, A.rule_a6_record_arms, A.rule_c04_default, Z.rule_native_record, M.rule_a9_dynamic, R.rule_omissions, R.rule_as_binary, R3.rule_native_scalar_value, R4.rule_segment_handover, R4.rule_items_positional],
+prop('C17', [T.rule_total_native, A.rule_c17_contra, A.rule_a6_record_arms, A.rule_c04_default, Z.rule_native_record, M.rule_a9_dynamic, R.rule_omissions, R.rule_as_binary, R3.rule_native_scalar_value, R4.rule_segment_handover, R4.rule_items_positional, R4.rule_native_list_cleared],
      'Native tables total over all types; in the python-value arms the OPTIONAL-absent skip is satisfiable and precedes '
      'the raising lookup; value arm and python arm take the same OPTIONAL/DEFAULT/open-type actions.  Native round trip '
      'of values is not decided.',
-     {'A1.total': 55, 'A4.contra': 4, 'A6.arms': 2, 'A6.omit': 8, 'W.binstr': 2, 'W.segspec': 3, 'C17.items': 2})
+     {'A1.total': 55, 'A4.contra': 4, 'A6.arms': 2, 'A6.omit': 8, 'W.binstr': 2, 'W.segspec': 3, 'C17.items': 2, 'C17.clear': 1})
 
 prop('C18', [A.rule_a8_dec, X.rule_nonevalue, T.rule_pair_ber, Z.rule_any_capture_yields, Z.rule_option_scope, A.rule_a6_open, R.rule_opentype_map_ref, R3.rule_opentype_truthy, R3.rule_open_skips, R3.rule_open_types_flag, R3.rule_method_identity],
      'Raw capture of an indefinite-length TLV is complete (header re-read <=> end-of-octets appended); raw octets are '
@@ -161,12 +161,12 @@ prop('C18', [A.rule_a8_dec, X.rule_nonevalue, T.rule_pair_ber, Z.rule_any_captur
      'resolved value is not decided.',
      {'A8.dec': 1, 'A13.raw': 1, 'A6.mapref': 1, 'A6.truthy': 3, 'A6.openskip': 6})
 
-prop('C19', [S.rule_field, S.rule_pep479, S.rule_companion, S.rule_commit, S.rule_bounds, S.rule_schema_ops, A.rule_c04_clone, R.rule_position_order],
+prop('C19', [S.rule_field, S.rule_pep479, S.rule_companion, S.rule_commit, S.rule_bounds, S.rule_schema_ops, A.rule_c04_clone, R.rule_position_order, R4.rule_copy_is_value],
      'Container state machines: methods invoked on the component store exist on its shape; no StopIteration raised in '
      'generators; CHOICE keeps the chosen index in step with the store (companion state, single writer); setters '
      'validate before they commit; instantiating readers bound the position; scalar operators reach the payload only '
      'through operations the noValue sentinel plugs.  Refinement of a list/dict model over histories is not decided.',
-     {'A10.field': 6, 'A10.pep479': 8, 'A10.companion': 2, 'A10.single': 8, 'A10.commit': 2, 'A10.bounds': 2, 'A10.schema': 60, 'A10.order': 3})
+     {'A10.field': 6, 'A10.pep479': 8, 'A10.companion': 2, 'A10.single': 8, 'A10.commit': 2, 'A10.bounds': 2, 'A10.schema': 60, 'A10.order': 3, 'C04.copyvalue': 2})
 
 prop('C20', [M.rule_a11_offset, M.rule_a11_trim, Z.rule_trim_start, M.rule_a11_parse, R.rule_memo_key, R.rule_fraction_pair, R.rule_offset_division, R3.rule_time_length_last, R4.rule_offset_verbatim],
      'Time text: offset sign taken from a signed quantity, hour/minute fields within range and width (interval '
